@@ -142,7 +142,7 @@ def base_component(comp, n):
 
 # ---------------------------------------------------------------------- faults
 _FVAL = {"nan": math.nan, "inf": math.inf, "-inf": -math.inf,
-         "huge": HUGE, "-huge": -HUGE}
+         "huge": HUGE, "-huge": -HUGE, "tiny": 5e-16}
 
 
 def _fault_applies(f, idx, x):
